@@ -41,11 +41,19 @@ def main():
         shutil.copy(demo, f"{dst}/{os.path.basename(demo)}")
         res = {"property": pid, "author": "independent sub-agent given only the property text", "summary": ch.get("summary"),
                "breaks": ch.get("breaks"), "files": ch.get("files"), "demo": os.path.basename(demo), "demo_cmd": ch.get("demo_cmd")}
+        recheck = "--recheck" in sys.argv and os.path.exists(f"{dst}/meta.json")
+        if recheck:
+            old = json.load(open(f"{dst}/meta.json"))
+            for k in ("confirmed", "demo_exit_without_patch", "demo_exit_with_patch", "demo_output_with_patch", "suite_with_patch"):
+                if k in old:
+                    res[k] = old[k]
         sh("git checkout -- . && git clean -fdq", cwd=wt)
         cmd = ch.get("demo_cmd") or f"cd {wt} && /venv/bin/python {demo}"
-        rc0, _ = sh(cmd, cwd=wt)
-        rca, o = sh(f"git apply {patch}", cwd=wt)
-        if rca:
+        rc0, _ = (0, "") if recheck else sh(cmd, cwd=wt)
+        rca, o = (0, "") if recheck else sh(f"git apply {patch}", cwd=wt)
+        if recheck:
+            pass
+        elif rca:
             res["confirmed"] = f"patch does not apply to the scratch worktree: {o[:200]}"
         else:
             rc1, o1 = sh(cmd, cwd=wt)
